@@ -81,7 +81,7 @@ CHECKS['C08'] = dict(
 CHECKS['C01'] = dict(
     text=_MP_TEXT + 'For every execution TLC prints the predicted observation (return value, ordered effect log of tracer calls and '
          'context-manager enter/exit, escaping exception type, log length at the raise); each is replayed with the same decision '
-         'vector into the function converted by the real malt (to_graph and the convert decorator, plus the LISTS feature for programs with list state; thorough: five option sets '
+         'vector into the function converted by the real malt (to_graph and the convert decorator, plus the LISTS feature for programs with list state; thorough: three option sets on every program, two more on every fourth '
          'incl. recursive=False and BUILTIN_FUNCTIONS/EQUALITY_OPERATORS) and must agree. The exploration runs under the '
          'Liveness monitor so that a divergence is attributed by the specification to an analysis defect already listed as a '
          'known finding, or reported.',
